@@ -4,6 +4,9 @@ Ops (driver side in lean/NetaddrVerif/Driver/C19.lean):
   iana_query ver val                     IPAddress(val, ver).info            (model: Registry.query over Gen.iana*)
   oui_index h:<hex> / iab_index h:<hex>  OUIIndexParser / IABIndexParser     (model: Registry.ouiIndex / iabIndex)
   ieee_lookup oui|iab key rows slices    OUI(key) / IAB(key << 12)           (model: Registry.ouiRecords / iabRecord)
+  ieee_load oui|iab h:<hex>              create_index_from_registry + load_index (model: Registry.ouiPipeline / iabPipeline)
+  ieee_genlookup oui|iab key h:<hex>     the same, then OUI(key) / IAB(key) reading that very text (index and registry
+                                         file swapped in for the duration of the call)
 oracle-only: idxcheck (shipped index files against the loaded OUI_INDEX / IAB_INDEX and the text).
 
 Independent side: the four IANA XML files are re-read with xml.etree and normalised with own
@@ -31,7 +34,9 @@ RULE = ('iana_query: every record of the four shipped IANA registries (independe
         'boundary values and random addresses; oui_index/iab_index: generated well-formed registries (1-30 records, '
         'LF/CRLF/mixed line ends, with/without header, duplicate identifiers, 0-6 address lines, blank and '
         'whitespace-only lines, non-ASCII bytes, optional missing final newline) and the shipped iab.txt as a whole; '
-        'pipeline: a quarter of the generated registries also through create_index_from_registry + load_index; '
+        'pipeline: a quarter of the generated registries also through create_index_from_registry + load_index (IAB records '
+        'without a (base 16) line included: load_index must raise ValueError); genlookup: generated registries swapped in '
+        'for the shipped ones, every identifier of the text and two absent ones looked up with OUI()/IAB(); '
         'ieee_lookup: every IAB key of iab.idx, 2500 sampled OUI keys of oui.idx, the duplicated identifiers, and '
         'unregistered neighbours; idxcheck: whole shipped index files. non-trivial = distinct case whose '
         'implementation output is not an error (registered identifier, non-empty answer or parsed registry)')
@@ -210,7 +215,34 @@ def _idx_case(kind, header, recs, tag):
 def _pipeline_case(c):
     """the same generated registry through create_index_from_registry + load_index (oracle-only)"""
     _, kind, header, recs = c.args
-    return Case(None, c.tag.replace('index/', 'pipeline/'), ('pipeline', kind, header, recs))
+    data = header + b''.join(r for _, r in recs)
+    return Case('ieee_load %s %s' % (kind, _hexline(data)), c.tag.replace('index/', 'pipeline/'), ('pipeline', kind, header, recs))
+
+
+def _genlookup_cases(rng, c):
+    """every identifier of a generated registry (and two absent ones) looked up through index + load + seek/read"""
+    _, kind, header, recs = c.args
+    data = header + b''.join(r for _, r in recs)
+    keys = []
+    for k, _r in recs:
+        if k not in keys:
+            keys.append(k)
+    if any(isinstance(k, str) for k in keys):
+        keys = keys[:1]                      # load_index raises: one lookup is enough
+        keys = [k if isinstance(k, int) else 0 for k in keys]
+    ints = [k for k in keys if isinstance(k, int)]
+    if kind == 'iab':
+        ints = [k for k in ints if (k >> 12) in (0x0050c2, 0x40d855)]
+        absent = [(0x0050c2 << 12) | rng.getrandbits(12), (0x40d855 << 12) | rng.getrandbits(12)]
+    else:
+        absent = [rng.getrandbits(24), (ints[0] ^ 1) if ints else 0]
+    out = []
+    for k in ints[:6] + absent:
+        present = any(k == kk for kk, _ in recs)
+        out.append(Case('ieee_genlookup %s %d %s' % (kind, k, _hexline(data)),
+                        c.tag.replace('index/', 'genlookup/') + ('/hit' if present else '/miss'),
+                        ('genlookup', kind, header, recs, k)))
+    return out
 
 
 def _lookup_case(kind, key, tag, spelling='int'):
@@ -250,7 +282,7 @@ def _phrase(rng, lo, hi):
     return b' '.join(rng.choice(_WORDS) for _ in range(rng.randint(lo, hi)))
 
 
-def _gen_registry(rng, kind):
+def _gen_registry(rng, kind, nobase16=False, iabpref=False):
     mode = rng.choice(('lf', 'crlf', 'mixed'))
 
     def eol():
@@ -275,6 +307,8 @@ def _gen_registry(rng, kind):
     recs = []
     for _ in range(n):
         p = rng.choice(pool) if rng.random() < 0.4 else rng.choice((rng.getrandbits(24), rng.getrandbits(24), 0, 0xffffff, 0x0050c2))
+        if iabpref and rng.random() < 0.8:
+            p = rng.choice((0x0050c2, 0x40d855))
         ids = '%02X-%02X-%02X' % (p >> 16, (p >> 8) & 0xff, p & 0xff)
         if rng.random() < 0.15:
             ids = ids.lower()
@@ -312,7 +346,12 @@ def _gen_registry(rng, kind):
                 tok = tok.lower()
             b16 = rng.choice((b'', b'', b' ')) + tok.encode() + gap() + b'(base 16)' + gap() + org.replace(b'(hex)', b'hex')
             pos = 0 if rng.random() < 0.8 else rng.randint(0, len(addr))
-            lines += addr[:pos] + [b16] + addr[pos:]
+            if nobase16 and rng.random() < 0.4:
+                # no (base 16) line: the parser leaves the first token (bytes) as the row key
+                key = 'raw' + (lead + ids.encode()).split()[0].hex()
+                lines += addr
+            else:
+                lines += addr[:pos] + [b16] + addr[pos:]
         if rng.random() < 0.7:
             lines.append(b'')
         recs.append((key, b''.join(l + eol() for l in lines)))
@@ -325,6 +364,8 @@ def _gen_registry(rng, kind):
         if b'(hex)' in last:        # still a record
             recs[-1] = (key, last)
     tag = '%s/%s/%s' % (mode, 'hdr' if with_header else 'nohdr', 'n1' if n == 1 else ('n2-5' if n <= 5 else 'n6-30'))
+    if any(isinstance(k, str) for k, _ in recs):
+        tag += '/nobase16'
     return _idx_case(kind, header, tuple(recs), tag)
 
 
@@ -375,10 +416,12 @@ def generate(rng, tier):
     # generated registries
     for i in range(600 * mult):
         for kind in ('oui', 'iab'):
-            c = _gen_registry(rng, kind)
+            c = _gen_registry(rng, kind, nobase16=(kind == 'iab' and i % 10 == 3), iabpref=(kind == 'iab' and i % 6 == 1))
             cases.append(c)
-            if i % 4 == 0:
+            if i % 4 == 0 or i % 10 == 3:
                 cases.append(_pipeline_case(c))
+            if i % 6 == 1 or i % 20 == 3:
+                cases += _genlookup_cases(rng, c)
     # lookups against the shipped indices
     for kind, bits in (('iab', 36), ('oui', 24)):
         rows = _read_idx(kind + '.idx')
@@ -540,6 +583,57 @@ def _neighbour_lookup(kind, key):
         pass
 
 
+class _Resources(object):
+    """stands in for netaddr.eui's importlib resources handle: the registry text of `kind` is `data`"""
+    def __init__(self, real, name, data):
+        self.real, self.name, self.data = real, name, data
+
+    def open_binary(self, package, name):
+        if name == self.name:
+            return io.BytesIO(self.data)
+        return self.real.open_binary(package, name)
+
+
+def _genlookup(kind, data, key):
+    """index `data` with netaddr's parser, load the index with load_index, make that index and text the
+    registry of `kind` for the duration of one OUI(key) / IAB(key) call, and restore everything"""
+    import netaddr.eui as E
+    out = io.StringIO()
+    new = {}
+    try:
+        ieee.create_index_from_registry(_peeked(data), out, ieee.OUIIndexParser if kind == 'oui' else ieee.IABIndexParser)
+        ieee.load_index(new, io.BytesIO(out.getvalue().encode('utf-8')))
+    except Exception as e:
+        en = errname(e)
+        return '!' + ('other' if en.startswith('other') else en)
+    live = ieee.OUI_INDEX if kind == 'oui' else ieee.IAB_INDEX
+    saved = dict(live)
+    real = E._importlib_resources
+    try:
+        live.clear()
+        live.update(new)
+        E._importlib_resources = _Resources(real, kind + '.txt', data)
+        try:
+            if kind == 'oui':
+                o = OUI(key)
+                recs = [o.registration(i) for i in range(o.reg_count)]
+            else:
+                o = IAB(key)
+                recs = [o.registration()]
+            if int(o) != key:
+                return '!wrongvalue:%d' % int(o)
+        except NotRegisteredError:
+            return '!notRegistered'
+        except Exception as e:
+            en = errname(e)
+            return '!' + ('other' if en.startswith('other') else en)
+    finally:
+        E._importlib_resources = real
+        live.clear()
+        live.update(saved)
+    return ';'.join('%d/%d/%s' % (r['offset'], r['size'], _show_parsed(r['org'], list(r['address']))) for r in recs)
+
+
 def _show_parsed(org, addr):
     return ('-' if not org else hexs(org)) + '/' + plist([hexs(a) for a in addr])
 
@@ -550,13 +644,23 @@ def impl(c):
         _, ver, v = a
         info = IPAddress(v, ver).info
         maps = _idmaps()
-        ids, keys = [], []
+        items, attrs, keys = [], [], []
         for topic in TOPICS:
-            recs = info[topic] or []
-            ks = [str(r[UKEY[topic]]) for r in recs]
-            ids.append(plist([str(i) for i in sorted(maps[topic].get(k, -1) for k in ks)]))
-            keys.append(','.join(sorted(_norm_key(topic, k) for k in ks)))
-        return ';'.join(ids) + '#' + ';'.join(keys)
+            recs = info[topic]                      # DictDotLookup.__getitem__: None for an absent key
+            if recs is None:
+                items.append('-')
+            else:
+                ks = [str(r[UKEY[topic]]) for r in recs]
+                items.append(plist([str(i) for i in sorted(maps[topic].get(k, -1) for k in ks)]))
+            try:
+                arecs = getattr(info, topic)        # attribute access: AttributeError for an absent key
+                ks = [str(r[UKEY[topic]]) for r in arecs]
+                attrs.append(plist([str(i) for i in sorted(maps[topic].get(k, -1) for k in ks)]))
+            except Exception as e:
+                en = errname(e)
+                attrs.append('!' + ('other' if en.startswith('other') else en))
+            keys.append(','.join(sorted(_norm_key(topic, str(r[UKEY[topic]])) for r in (recs or []))))
+        return ';'.join(items) + '|' + ';'.join(attrs) + '#' + ';'.join(keys)
     if a[0] == 'index':
         _, kind, header, recs = a
         return _run_parser(kind, header + b''.join(r for _, r in recs))
@@ -573,6 +677,9 @@ def impl(c):
         except Exception as e:
             return '!' + errname(e)
         return ';'.join('%d=%s' % (k, '+'.join('%d:%d' % t for t in idx[k])) for k in sorted(idx))
+    if a[0] == 'genlookup':
+        _, kind, header, recs, key = a
+        return _genlookup(kind, header + b''.join(r for _, r in recs), key)
     if a[0] == 'lookup':
         _, kind, key = a[:3]
         spelling = a[3] if len(a) > 3 else 'int'
@@ -626,13 +733,21 @@ def oracle(c, got):
         if have != exp:
             return '.info of %s returned the records with ranges {%s} (IPv4;IPv6;IPv6_unicast;Multicast), the registry files give {%s}' % (
                 ipaddress.IPv6Address(v) if ver == 6 else ipaddress.IPv4Address(v), have, exp)
+        # which keys exist: a registry with no record containing the address has no key at all
+        # (info[k] is None, info.k raises AttributeError); a present key never maps to []
+        items, attrs = [x.split(';') for x in got.split('#', 1)[0].split('|')]
+        for topic, e, it, at in zip(TOPICS, exp.split(';'), items, attrs):
+            if (it == '-') != (e == '') or it == '[]':
+                return '.info[%r] is %s but the registry files give {%s}' % (topic, it, e)
+            if at != (it if it != '-' else '!other'):
+                return '.info.%s gives %s while .info[%r] gives %s' % (topic, at, topic, it)
         return None
     if a[0] == 'index':
         _, kind, header, recs = a
         off = len(header)
         exp = []
         for key, rec in recs:
-            exp.append('%d:%d:%d' % (key, off, len(rec)))
+            exp.append('%s:%d:%d' % (key, off, len(rec)))
             off += len(rec)
         exp = plist(exp)
         if got != exp:
@@ -645,9 +760,30 @@ def oracle(c, got):
         for key, rec in recs:
             d.setdefault(key, []).append((off, len(rec)))
             off += len(rec)
-        exp = ';'.join('%d=%s' % (k, '+'.join('%d:%d' % t for t in d[k])) for k in sorted(d))
+        if any(isinstance(k, str) for k in d):
+            exp = '!value'          # a bytes key in the key column: int() in load_index raises ValueError
+        else:
+            exp = ';'.join('%d=%s' % (k, '+'.join('%d:%d' % t for t in d[k])) for k in sorted(d))
         if got != exp:
             return '%s index written and loaded back is %s, the records are delimited by %s' % (kind, got[:300], exp[:300])
+        return None
+    if a[0] == 'genlookup':
+        _, kind, header, recs, key = a
+        if any(isinstance(k, str) for k, _ in recs):
+            return None if got == '!value' else 'a record without (base 16) line: load_index must raise ValueError, got %s' % got[:120]
+        off = len(header)
+        exp = []
+        for k, rec in recs:
+            if k == key:
+                org, addr = _ref_record(rec.decode('utf-8'))
+                exp.append('%d/%d/%s' % (off, len(rec), _show_parsed(org, addr)))
+            off += len(rec)
+        if kind == 'iab':
+            exp = exp[:1]
+        exp = ';'.join(exp) if exp else '!notRegistered'
+        if got != exp:
+            return '%s %#x over a generated registry: registration %s, the records carrying it give %s' % (
+                kind.upper(), key, got[:300], exp[:300])
         return None
     if a[0] == 'file':
         kind = a[1]
@@ -703,7 +839,7 @@ def oracle(c, got):
 def repro(c):
     a = c.args
     if a[0] == 'iana':
-        return "from netaddr import IPAddress; dict(IPAddress(%d, %d).info)" % (a[2], a[1])
+        return "from netaddr import IPAddress; vars(IPAddress(%d, %d).info)" % (a[2], a[1])   # dict(info) raises TypeError on Python 3
     if a[0] == 'index':
         data = a[2] + b''.join(r for _, r in a[3])
         return ("import io; from netaddr.eui import ieee; from netaddr.core import Subscriber; "
@@ -714,6 +850,10 @@ def repro(c):
         return ("import io; from netaddr.eui import ieee; o = io.StringIO(); "
                 "ieee.create_index_from_registry(io.BytesIO(%r), o, ieee.%sIndexParser); d = {}; "
                 "ieee.load_index(d, io.BytesIO(o.getvalue().encode())); d" % (data, a[1].upper()))
+    if a[0] == 'genlookup':
+        data = a[2] + b''.join(r for _, r in a[3])
+        return ("import sys; sys.path.insert(0, 'harness'); sys.path.insert(0, 'harness/props'); import c19; "
+                "c19._genlookup(%r, %r, %d)" % (a[1], data, a[4]))
     if a[0] == 'file':
         return "run netaddr.eui.ieee.%sIndexParser over the shipped %s.txt and compare with %s.idx" % (a[1].upper(), a[1], a[1])
     if a[0] == 'lookup':
